@@ -107,6 +107,29 @@ PERSIST_HEAVY = dict(
     p_catch=0.85, p_version_change=0.2, n_groups=(1, 1), p_nonjson=0.02)
 
 
+SWAP_HEAVY = dict(
+    n_groups=(2, 2), p_swap_groups=1.0, p_switch_root=0.6, n_steps=(3, 7),
+    p_mutate_step=0.2, n_paths=(3, 6), p_catch=0.85, w_raise=9,
+    p_write_never=0.08, p_q_near_output=0.85, w_probe=5, w_q=36,
+    p_clean_step=0.08, n_init=(0, 3))
+OVERLAP = dict(
+    p_anc_target=0.35, w_bf=36, w_sb=10, w_q=26, w_raise=10, p_catch=0.9,
+    p_write_never=0.15, p_write_unlink=0.05, n_paths=(3, 5), n_init=(1, 5),
+    n_steps=(2, 5), p_mutate_step=0.3, p_tamper=0.5, n_groups=(1, 1),
+    p_q_near_output=0.8, w_probe=4, p_plant=0.2)
+NESTED_FAIL = dict(
+    FAILURE_HEAVY, p_fail_after_nested=0.5, n_steps=(3, 6),
+    p_mutate_step=0.1, p_clean_step=0.25, w_probe=4)
+
+
+def camp(name, profile, params, rule, **kw):
+    d = {'name': name, 'profile': profile, 'mode': 'plain',
+         'nontrivial': nt_serve_and_exec, 'weight': 1.0, 'params': params,
+         'rule': rule}
+    d.update(kw)
+    return d
+
+
 def nt_any_build(stats):
     return stats.get('builds', 0) > 0 and stats.get('executed', 0) > 0
 
@@ -303,6 +326,44 @@ CAMPAIGNS = {
                  'uncaught failures at every level'},
     ],
 }
+
+
+SWAP_RULE = ('two root programs whose output paths sit above / below each '
+             'other (file <-> directory swaps of outputs between builds)')
+NESTED_RULE = ('build_file functions that build nested outputs and then fail, '
+               'caught by cached callers; unchanged rebuilds; clean')
+for _p, _post in (('C01', None), ('C03', None), ('C04', None),
+                  ('C10', 'tag_all:C10'), ('C12', 'tag_after_clean'),
+                  ('C05', None), ('C02', None)):
+    _extra = {'post': _post} if _post else {}
+    if _p == 'C02':
+        CAMPAIGNS[_p].append(camp(
+            'c02-swaps-crash', 'C02', SWAP_HEAVY, SWAP_RULE,
+            mode='crash-sweep', nontrivial=nt_rollback_restored, chunk=6,
+            sweep_max={'quick': 12, 'thorough': None}, follow=1))
+        continue
+    CAMPAIGNS[_p].append(camp(_p.lower() + '-swaps', _p, SWAP_HEAVY,
+                              SWAP_RULE, **_extra))
+    CAMPAIGNS[_p].append(camp(_p.lower() + '-nested-fail', _p, NESTED_FAIL,
+                              NESTED_RULE, **_extra))
+OVERLAP_RULE = ('targets above / below other targets of the same build '
+                '(one of the two calls failing), over foreign files')
+CAMPAIGNS['C03'].append(camp('c03-overlap', 'C03', OVERLAP, OVERLAP_RULE))
+CAMPAIGNS['C03'].append(camp(
+    'c03-overlap-crash', 'C03', OVERLAP, OVERLAP_RULE, mode='crash-sweep',
+    nontrivial=nt_rollback_restored, chunk=6,
+    sweep_max={'quick': 10, 'thorough': None}, follow=1))
+CAMPAIGNS['C02'].append(camp(
+    'c02-overlap-crash', 'C02', OVERLAP, OVERLAP_RULE, mode='crash-sweep',
+    nontrivial=nt_rollback_restored, chunk=6,
+    sweep_max={'quick': 12, 'thorough': None}, follow=1))
+CAMPAIGNS['C10'].append(camp('c10-overlap', 'C10', OVERLAP, OVERLAP_RULE,
+                             post='tag_all:C10'))
+CAMPAIGNS['C04'].append(camp('c04-overlap', 'C04', OVERLAP, OVERLAP_RULE))
+for _c in CAMPAIGNS['C03']:
+    _c['foreign_live'] = True
+for _c in CAMPAIGNS['C12']:
+    _c['nontrivial'] = nt_clean
 
 
 def for_property(prop):
